@@ -50,11 +50,11 @@ def structure_rules(ctx):
         return None
     selfp = ("param", 1, "self")
     tb = TermBuilder(mg, prog)
-    heads = mg.loop_heads()
-    if len(heads) != 1:
-        ctx.shape("R04-merge-criterion", mg.key, mg, "merge has %d loops, expected the single fuse loop" % len(heads))
+    from .common import fuse_loop
+    h = fuse_loop(mg, tb)
+    if h is None:
+        ctx.shape("R04-merge-criterion", mg.key, mg, "merge has %d loops, none or several of which grow a cluster" % len(mg.loop_heads()))
         return mg
-    h = heads[0]
     sf = ("field", selfp, "scale_function")
     n = ("field", selfp, "n_samples")
     # carried variables by role
